@@ -281,6 +281,48 @@ def runAllChecked {κ : Type} (S : Stats κ) (W : Name → Nat → SimOut κ) (p
   if runRejects S W keepAll σ 0 (batchSimulations n) (initSt progs) then none
   else some (runAll S W progs keepAll σ n)
 
+/-! ### histories of runs into the same output folder -/
+
+/-- `SimulationManager.initialize_outputs`: whatever the output folder held (program folders,
+summary files of an earlier run, anything else), it is removed and an empty folder is created -/
+def clearFolder {κ : Type} (_prior : St κ) : St κ := { dirs := [], ts := [], emis := [] }
+
+/-- the program folders appear with the first files written into them -/
+def mkProgDirs {κ : Type} (progs : List Name) (st : St κ) : St κ :=
+  { st with dirs := st.dirs ++ progs.map fun p => (p, []) }
+
+/-- one complete run (`initialize_outputs`, then the batch loop) into a folder in state `prior` -/
+def runInFolder {κ : Type} (S : Stats κ) (W : Name → Nat → SimOut κ) (progs : List Name) (keepAll : Bool)
+    (σ : Sched κ) (n : Nat) (prior : St κ) : St κ :=
+  runBatches S W keepAll σ 0 (batchSimulations n) (mkProgDirs progs (clearFolder prior))
+
+/-- the same with the real code's rejection of files without rows -/
+def runInFolderChecked {κ : Type} (S : Stats κ) (W : Name → Nat → SimOut κ) (progs : List Name) (keepAll : Bool)
+    (σ : Sched κ) (n : Nat) (prior : St κ) : Option (St κ) :=
+  if runRejects S W keepAll σ 0 (batchSimulations n) (mkProgDirs progs (clearFolder prior)) then none
+  else some (runInFolder S W progs keepAll σ n prior)
+
+/-- the batch loop started in the folder as it is (what a run does when the clean-up leaves the
+earlier contents in place): only the folders of programs that are not there yet are created
+(used to state what goes wrong; every folder found is treated as a program of this run) -/
+def runWithoutInit {κ : Type} (S : Stats κ) (W : Name → Nat → SimOut κ) (progs : List Name) (keepAll : Bool)
+    (σ : Sched κ) (n : Nat) (prior : St κ) : St κ :=
+  runBatches S W keepAll σ 0 (batchSimulations n)
+    (mkProgDirs (progs.filter fun p => !(prior.dirs.map (·.1)).contains p) prior)
+
+/-- what one run of a history is configured with -/
+structure RunSpec (κ : Type) where
+  W : Name → Nat → SimOut κ
+  progs : List Name
+  keepAll : Bool
+  σ : Sched κ
+  n : Nat
+
+/-- runs one after the other into the same folder -/
+def runHistory {κ : Type} (S : Stats κ) : List (RunSpec κ) → St κ → St κ
+  | [], st => st
+  | r :: rs, st => runHistory S rs (runInFolder S r.W r.progs r.keepAll r.σ r.n st)
+
 /-! ### cost summary -/
 
 structure CostRow where
